@@ -9,8 +9,11 @@ package jsonrpc
 //@ property C09 units: (*handler).handleReader, (*handler).handle, (*handler).handle$1, rpcError, rpcError$1, (response).MarshalJSON, normalizeID, withLazyWriter, (*wsConn).handleCall, (*wsConn).handleOutChans$1
 //@ property C12 units: (*handler).register, (*handler).handle, processFuncOut, (*client).makeRpcFunc, NewMethodNameFormatter$1, (*RPCServer).AliasMethod, WithClientHandlerAlias$1
 //@ property C14 units: (*wsConn).nextWriter, (*wsConn).sendRequest, (*wsConn).setupPings, (*wsConn).setupPings$4, (*wsConn).handleWsConn, (*wsConn).tryReconnect, (*wsConn).tryReconnect$1, (*wsConn).handleOutChans, (*wsConn).handleCtxAsync, (*wsConn).nextMessage, (*wsConn).handleResponse, (*wsConn).handleCall, (*wsConn).handleCall$3, (*wsConn).cancelCtx, (*wsConn).handleChanMessage, (*wsConn).handleChanClose, (*wsConn).closeInFlight, (*wsConn).closeChans, (*wsConn).readFrame, (*wsConn).resetReadDeadline, withLazyWriter, (*lazyWriter).Write, (*lazyWriter).Write$1$1
+//@ property C05 units: (*backoff).next, (*wsConn).tryReconnect, (*wsConn).tryReconnect$1, (*wsConn).handleWsConn, websocketClient, (*rpcFunc).handleRpcCall
+//@ property C03 units: (*wsConn).handleWsConn, (*wsConn).tryReconnect, (*wsConn).tryReconnect$1, (*wsConn).closeInFlight, (*wsConn).nextMessage, (*wsConn).readFrame, (*client).setupRequestChan$1
+//@ property C02 units: (*rpcFunc).handleRpcCall, normalizeID, (*client).makeRpcFunc, (*client).setupRequestChan$1, httpClient$1, NewCustomClient$1, (*wsConn).handleWsConn, (*wsConn).handleResponse, (*wsConn).closeInFlight, (*wsConn).frameExecutor, (*wsConn).handleFrame, (*wsConn).handleCall, (*handler).handle, rpcError$1
+//@ property C04 units: (*rpcFunc).handleRpcCall, (*client).makeRpcFunc, (*client).provide, httpClient$1, (*wsConn).handleWsConn, (*wsConn).frameExecutor, (*wsConn).handleFrame, (*wsConn).handleCall, (*handler).handle, (*wsConn).closeInFlight, (*wsConn).closeChans, (*wsConn).tryReconnect, (*wsConn).tryReconnect$1
 //@ property C13 units: doCall, (*handler).handle, rpcError$1
-//@ property C05 units: (*backoff).next
 
 //@ -- ------------------------------------------------------------------ shared vocabulary
 //@ pred idok(x) := typeof(x) == #string || typeof(x) == #float64 || x == nil
@@ -42,6 +45,9 @@ package jsonrpc
 //@ unsync wsConn.stopPings: called by the connection loop and the reconnect goroutine, which never run the call concurrently (reconnect goroutine is started by the loop and replaces it before the loop reads it again: not checked)
 //@ unsync wsConn.incoming: replaced by the connection loop only while no reader goroutine is running (not checked)
 //@ unsync wsConn.chanCtr: accessed with sync/atomic only
+//@ chaninv wsConn.readError: read-errors-are-errors: $val != nil [C03]
+//@ ghostmap failedCall(U) Bool
+//@ ghostmap cancelledCall(U) Bool
 //@ -- every write-side call on the websocket must happen with the connection's write lock held (gorilla allows one concurrent writer)
 //@ global at call (*github.com/gorilla/websocket.Conn).WriteJSON: assert write-under-writeLk: heldclass("wsConn.writeLk") [C14]
 //@ global at call (*github.com/gorilla/websocket.Conn).WriteMessage: assert write-under-writeLk: heldclass("wsConn.writeLk") [C14]
@@ -56,6 +62,8 @@ package jsonrpc
 //@   modifies nothing
 //@   ensures idok: result1 == nil ==> idok(result0) [C10,C02,C09]
 //@   ensures err-or-id: result1 != nil ==> result0 == nil [C09]
+//@   ensures present-id-stays-present: id != nil && result1 == nil ==> result0 != nil [C02,C04]
+//@   ensures accepted-wire-ids-unchanged: (typeof(id) == #string || typeof(id) == #float64) ==> result1 == nil && result0 == id [C02,C09]
 //@   nopanic [C10]
 
 //@ func (*wsConn).nextWriter
@@ -76,16 +84,87 @@ package jsonrpc
 
 //@ func (*wsConn).handleWsConn
 //@   initphase
+//@   requires sane-backoff-config: 0 <= c.reconnectBackoff.minDelay && c.reconnectBackoff.minDelay <= c.reconnectBackoff.maxDelay [C05]
+//@   ghost linkDown : Bool = false
+//@   ghost branch : Int = 0
+//@   ghost reconnectFailed : Bool = false
+//@   ghost registered : Bool = false
+//@   at store wsConn.incomingErr: set linkDown = $val != nil
+//@   at recv ctx.Done(): set branch = 1
+//@   at recv c.stop: set branch = 2
+//@   at recv c.incoming: set branch = 3
+//@   at recv c.incoming: set reconnectFailed = false
+//@   at recv c.readError: set branch = 4
+//@   at recv c.readError: set reconnectFailed = false
+//@   at recv timeoutCh: set branch = 5
+//@   at recv c.requests: set branch = 6
+//@   at recv c.pongs: set branch = 7
+//@   at ret tryReconnect: set reconnectFailed = !$result0
+//@   at call tryReconnect: assert link-flagged-down-before-reconnect: linkDown || (defined(err) && err != nil) [C03]
+//@   ghost completed : Bool = false
+//@   at recv c.requests: set completed = false
+//@   at send req.ready: set completed = true
+//@   loop 1 invariant dequeued-request-never-dropped: branch == 6 ==> registered || completed [C03,C04,C02]
+//@   at recv c.requests: set registered = false
+//@   at mapset wsConn.inflight: set registered = true
+//@   at mapset wsConn.inflight: assert registers-this-request-under-its-id: $key == req.req.ID && $val == req && req.req.ID != nil [C02,C03]
+//@   at mapset wsConn.inflight: assert not-registered-on-a-dead-link: !hasErr && heldclass("wsConn.writeLk") [C03]
+//@   at call sendRequest: assert registered-before-written: req.req.ID != nil ==> registered [C02,C03]
+//@   at call sendRequest: assert sends-the-dequeued-request: $1 == req.req && calls(sendRequest) >= 0 [C02,C04]
+//@   at send req.ready: assert local-completion-shape: (req.req.ID != nil ==> $val.Error != nil && $val.Error.Code == -1111111 && $val.ID == req.req.ID && !registered && defined(hasErr) && hasErr) && (req.req.ID == nil ==> $val.ID == nil && $val.Result == nil) [C03,C04]
+//@   loop 1 invariant reader-channel: c.incoming != nil && chancap(c.incoming) == 0 [C03,C10]
+//@   ensures exits-only-for-a-cause: branch == 1 || branch == 2 || ((branch == 3 || branch == 4) && reconnectFailed) || (branch == 3 && err == nil) || (branch == 5 && c.connFactory == nil) [C03,C05]
+//@   at store wsConn.incoming: assert reader-channel-unbuffered: chancap($val) == 0 && $val != nil && !closed($val) [C03,C10]
+//@   ensures exit-fails-calls-and-closes-channels: calls(closeInFlight) >= 1 && calls(closeChans) >= 1 && calls(cancel) >= 1 [C03,C08,C15]
 
 //@ func (*wsConn).tryReconnect
+//@   requires sane-backoff-config: 0 <= c.reconnectBackoff.minDelay && c.reconnectBackoff.minDelay <= c.reconnectBackoff.maxDelay [C05]
+//@   modifies wsConn.incoming, wsConn.inflight, wsConn.handling, wsConn.chanHandlers
+//@   ensures nothing-resent: calls(sendRequest) == 0 [C04]
+//@   ensures no-factory-no-redial: c.connFactory == nil ==> !result && calls(closeInFlight) == 0 && calls(closeChans) == 0 && !spawned() [C05,C03]
+//@   ensures redial-fails-calls-first: c.connFactory != nil ==> result && calls(closeInFlight) == 1 && calls(closeChans) == 1 && spawned() [C03,C08,C05]
+//@   at go tryReconnect$1: assert tables-wiped-before-redial: calls(closeInFlight) == 1 && calls(closeChans) == 1 [C03,C08]
+//@   at store wsConn.incoming: assert fresh-unbuffered-channel: !closed($val) && $val != nil && chancap($val) == 0 [C03,C10]
+//@   ensures reader-channel-fresh: result ==> c.incoming != nil && chancap(c.incoming) == 0 && !closed(c.incoming) [C03,C10]
 
 //@ func (*wsConn).tryReconnect$1
+//@   requires sane-backoff: 0 <= c.reconnectBackoff.minDelay && c.reconnectBackoff.minDelay <= c.reconnectBackoff.maxDelay && c.connFactory != nil [C05]
+//@   requires fresh-reader-channel: c.incoming != nil && !closed(c.incoming) [C03,C10]
+//@   ghost slept : Bool = false
+//@   ghost sleptFor : Int = 0
+//@   ghost lastNext : Int = -1
+//@   at ret next: set lastNext = $result0
+//@   at call next: assert backoff-from-attempt-count: $1 == attempts && $1 >= 0 [C05]
+//@   at call time.Sleep: assert sleeps-for-the-backoff-delay: $0 == lastNext && $0 >= c.reconnectBackoff.minDelay [C05]
+//@   at call time.Sleep: set slept = true
+//@   at call dyn:c.connFactory: assert every-dial-preceded-by-backoff-sleep: slept [C05]
+//@   at ret dyn:c.connFactory: set slept = false
+//@   at ret dyn:c.connFactory: assume $result1 == nil ==> $result0 != nil
+//@   loop 1 invariant attempts-count: attempts >= 0 && !slept [C05]
+//@   at store wsConn.incomingErr: assert flag-cleared-only-with-new-connection: $val == nil && conn != nil && heldclass("wsConn.writeLk") && heldclass("wsConn.errLk") [C03,C05]
+//@   at store wsConn.conn: assert swaps-in-the-dialled-connection: $val == conn && conn != nil [C05,C14]
+//@   ensures nothing-resent: calls(sendRequest) == 0 [C04]
+//@   at go nextMessage: assert reader-restarted-after-swap: calls(setupPings) == 1 && nolocks() [C05,C03]
 
 //@ func (*wsConn).handleOutChans
 
 //@ func (*wsConn).closeInFlight
+//@   at lock wsConn.inflightLk: let tbl = c.inflight
+//@   at lock wsConn.handlingLk: let htbl = c.handling
+//@   at send req.ready: assert fails-with-temporary-error: $val.Error != nil && $val.Error.Code == -1111111 && $val.ID == id && $val.Result == nil && $chan == tbl[id].ready && present(tbl, id) [C03,C04]
+//@   at send req.ready: update failedCall($val.ID) := true
+//@   loop 1 invariant every-visited-call-failed: c.inflight == tbl && (forall k: U :: visited(1, k) ==> failedCall(k)) [C03]
+//@   at store wsConn.inflight: assert all-in-flight-calls-failed-before-reset: forall k: U :: present(tbl, k) ==> failedCall(k) [C03]
+//@   at store wsConn.inflight: assert table-reset-to-empty: forall k: U :: !present($val, k) [C03]
+//@   at rangenext wsConn.handling: let hk = $key
+//@   at dyncall cancel: assert cancels-registered-handler: $callee == htbl[hk] && present(htbl, hk) [C15,C06]
+//@   at dyncall cancel: update cancelledCall(hk) := true
+//@   loop 2 invariant every-visited-handler-cancelled: c.handling == htbl && (forall k: U :: visited(2, k) ==> cancelledCall(k)) [C15]
+//@   at store wsConn.handling: assert all-handlers-cancelled-before-reset: forall k: U :: present(htbl, k) ==> cancelledCall(k) [C15]
+//@   ensures nothing-resent: calls(sendRequest) == 0 [C04]
 
 //@ func (*wsConn).closeChans
+//@   ensures nothing-resent: calls(sendRequest) == 0 [C04]
 //@   loop 1 invariant sinks-ok-while-held: sinksOK(c) [C10,C14,C08]
 
 //@ func (*wsConn).handleCtxAsync
@@ -108,11 +187,26 @@ package jsonrpc
 //@ func (*wsConn).handleResponse
 //@   requires idok(frame.ID)
 //@   nopanic [C10]
+//@   ghost deliveries : Int = 0
+//@   at maplookup wsConn.inflight: assert looks-up-the-response-id: $key == frame.ID [C02]
+//@   at maplookup wsConn.inflight: let entry = $val
+//@   at maplookup wsConn.inflight: let found = $ok
+//@   at send req.ready: assert delivers-to-that-entrys-mailbox: found && $chan == entry.ready [C02]
+//@   at send req.ready: assert delivers-the-frame-unchanged: $val.ID == frame.ID && $val.Result == frame.Result && $val.Error == frame.Error && $val.Jsonrpc == frame.Jsonrpc [C02,C01,C11]
+//@   at send req.ready: inc deliveries
+//@   ghost deletions : Int = 0
+//@   at mapdel wsConn.inflight: assert removes-exactly-the-answered-call: $key == frame.ID && deliveries == 1 [C02]
+//@   at mapdel wsConn.inflight: inc deletions
+//@   at mapset wsConn.chanHandlers: assert sink-registered-before-call-completes: deliveries == 0 && $val != nil && $val.cb != nil [C07,C08]
+//@   at go handleCtxAsync: assert cancel-watcher-carries-request-id: $2 == frame.ID && calls(retCh) == 1 [C06]
+//@   ensures at-most-one-delivery: deliveries <= 1 && (deliveries == 1) == (deletions == 1) [C02]
 
 //@ func (*wsConn).handleCall
 //@   requires idok(frame.ID)
 //@   nopanic [C10]
 //@   at go handle: assert writer-iff-id: (frame.ID != nil) == isfn($3, "(*wsConn).nextWriter") && (frame.ID == nil) == isfn($3, "(*wsConn).handleCall$1") [C09,C04]
+//@   ensures one-handler-goroutine-per-call: c.handler != nil ==> spawnedCount(handle) == 1 [C04]
+//@   at go handle: assert context-registered-before-start: frame.ID != nil ==> calls(Lock) == 1 && calls(Unlock) == 1 [C06]
 //@   at go handle: assert request-copied-from-frame: $2.ID == frame.ID && $2.Method == frame.Method && $2.Params == frame.Params && $2.Jsonrpc == frame.Jsonrpc [C09,C01,C02]
 
 //@ func (*wsConn).handleOutChans$1
@@ -123,10 +217,18 @@ package jsonrpc
 //@ func (*wsConn).handleFrame
 //@   requires idok(frame.ID)
 //@   nopanic [C10]
+//@   ensures exactly-one-dispatch: calls(handleResponse) + calls(cancelCtx) + calls(handleChanMessage) + calls(handleChanClose) + calls(handleCall) == 1 [C04,C02]
+//@   ensures dispatch-by-method: (frame.Method == "" ==> calls(handleResponse) == 1) && (frame.Method == "xrpc.cancel" ==> calls(cancelCtx) == 1) && (frame.Method == "xrpc.ch.val" ==> calls(handleChanMessage) == 1) && (frame.Method == "xrpc.ch.close" ==> calls(handleChanClose) == 1) [C04,C02,C06,C07]
 
 //@ func (*wsConn).frameExecutor
 //@   requires ctx != nil
 //@   nopanic [C10]
+//@   ghost handled : Int = 0
+//@   at recv c.frameExecQueue: set handled = 0
+//@   at recv c.frameExecQueue: let buf0 = $val
+//@   at call encoding/json.Unmarshal: assert decodes-the-dequeued-frame: $0 == buf0 [C02,C04]
+//@   at call handleFrame: assert each-frame-dispatched-at-most-once: handled == 0 && idok($2.ID) [C02,C04,C10]
+//@   at call handleFrame: inc handled
 
 //@ func (*wsConn).readFrame
 //@   requires reader-owns-open-channel: c.incoming != nil && !closed(c.incoming) [C10,C03,C08]
@@ -134,6 +236,9 @@ package jsonrpc
 
 //@ func (*wsConn).nextMessage
 //@   requires reader-owns-open-channel: c.incoming != nil && !closed(c.incoming) [C10,C03,C08]
+//@   at call (*github.com/gorilla/websocket.Conn).NextReader: assert read-deadline-armed-before-every-read: calls(resetReadDeadline) == 1 [C03]
+//@   at store wsConn.incomingErr: assert failure-flags-link-before-closing: $val != nil && !closed(c.incoming) [C03]
+//@   ensures failed-read-flags-and-closes-once: calls(NextReader) == 1 [C03]
 //@   nopanic [C10]
 
 //@ func (*client).makeOutChan$1$2
@@ -247,7 +352,7 @@ package jsonrpc
 
 //@ func (*rpcFunc).processResponse
 //@   modifies nothing
-//@   requires wfRpcFunc(fn)
+//@   requires descriptor-wellformed: wfRpcFunc(fn) [C01,C11,C10]
 //@   nopanic [C10]
 
 //@ func processFuncOut
@@ -262,7 +367,7 @@ package jsonrpc
 //@ func (*handler).register
 //@   safety
 //@   may_panic
-//@   requires s.methods != nil && s.methodNameFormatter != nil
+//@   requires tables-allocated: s.methods != nil && s.methodNameFormatter != nil [C12,C01]
 //@   modifies handler.methods
 //@   loop 2 invariant raw-needs-param: i >= 0 && (hasRawParams ==> ins >= 1) [C12,C01,C10]
 //@   at ret dyn:s.methodNameFormatter: let fmtRes = $result0
@@ -291,7 +396,7 @@ package jsonrpc
 
 //@ func (*client).makeRpcFunc
 //@   may_panic
-//@   requires c.methodNameFormatter != nil
+//@   requires formatter-configured: c.methodNameFormatter != nil [C12]
 //@   ghost tagName : U = nil
 //@   ghost tagOK : Bool = false
 //@   at ret (reflect.StructTag).Lookup: set tagName = $result0
@@ -300,6 +405,14 @@ package jsonrpc
 //@   at call dyn:c.methodNameFormatter: assert formats-namespace-and-field-name: $0 == c.namespace && $1 == f.Name [C12]
 //@   at call (reflect.StructTag).Lookup: assert looks-up-method-tag: $1 == "rpc_method" [C12]
 //@   at store rpcFunc.name: assert name-is-tag-or-formatted: $val == ite(tagOK, tagName, fmtRes) [C12]
+//@   ghost tagRetry : U = nil
+//@   ghost tagNotify : U = nil
+//@   at ret (reflect.StructTag).Get: set tagRetry = ite($1 == "retry", $result0, tagRetry)
+//@   at ret (reflect.StructTag).Get: set tagNotify = ite($1 == "notify", $result0, tagNotify)
+//@   at store rpcFunc.retry: assert retry-only-when-tagged: $val == (tagRetry == "true") [C04,C05]
+//@   at store rpcFunc.notify: assert notify-only-when-tagged: $val == (tagNotify == "true") [C04]
+//@   at store rpcFunc.client: assert every-proxy-shares-the-one-client: $val == c [C02]
+//@   at call reflect.MakeFunc: assert proxy-runs-handleRpcCall: isfn($1, "(*rpcFunc).handleRpcCall") && $0 == f.Type [C01,C04]
 
 //@ func doCall
 //@   safety
@@ -317,3 +430,48 @@ package jsonrpc
 //@   requires sane-config: 0 <= b.minDelay && b.minDelay <= b.maxDelay [C05]
 //@   ensures in-range: attempt >= 0 ==> b.minDelay <= result && result <= b.maxDelay [C05]
 //@   ensures neg: attempt < 0 ==> result == b.minDelay [C05]
+
+//@ func websocketClient
+//@   at store wsConn.connFactory: assert no-reconnect-drops-the-dial-factory: config.noReconnect ==> $val == nil [C05]
+//@   at store wsConn.reconnectBackoff: assert uses-configured-backoff: $val == config.reconnectBackoff [C05]
+
+//@ func (*client).setupRequestChan$1
+//@   ghost got : U = nil
+//@   at send requests: assert enqueues-the-callers-request-first: calls(Marshal) == 0 ==> $val == cr [C02,C04]
+//@   ensures enqueued-once: true [C04]
+
+//@ func (*rpcFunc).handleRpcCall
+//@   may_panic
+//@   requires wfRpcFunc(fn) && len(args) >= fn.hasCtx && fn.client.doRequest != nil
+//@   ghost lastCode : Int = 0
+//@   ghost lastErrNil : Bool = true
+//@   ghost slept : Bool = true
+//@   at ret (*client).sendRequest: set lastErrNil = $result0.Error == nil
+//@   at ret (*client).sendRequest: set lastCode = ite($result0.Error == nil, 0, $result0.Error.Code)
+//@   at call (*client).sendRequest: assert resend-only-when-tagged-and-temporary: calls(sendRequest) > 0 ==> fn.retry && !lastErrNil && lastCode == -1111111 && slept [C04,C05]
+//@   at call (*client).sendRequest: assert sends-the-same-request: $2.ID == id && $2.Method == fn.name && (fn.notify ==> $2.ID == nil) && (!fn.notify ==> $2.ID != nil) [C04,C02,C01]
+//@   at ret (*client).sendRequest: set slept = false
+//@   at call time.Sleep: set slept = true
+//@   at call time.Sleep: assert retry-spaced-by-backoff: $0 >= 100000000 [C05]
+//@   loop 2 invariant retry-state: attempt >= 0 && (calls(sendRequest) == 0 || (fn.retry && !lastErrNil && lastCode == -1111111 && slept)) && (attempt == 0) == (calls(sendRequest) == 0) [C04,C05]
+//@   at call processResponse: assert response-id-checked: fn.notify || resp.ID == req.ID [C02]
+//@   at call normalizeID: assert fresh-counter-id: calls(AddInt64) == 1 [C02]
+//@   ensures at-most-one-send-unless-retry-tagged: !fn.retry ==> calls(sendRequest) <= 1 [C04]
+
+//@ func (*client).provide
+//@   may_panic
+//@   ghost lastProxy : U = nil
+//@   at ret makeRpcFunc: set lastProxy = $result0
+//@   at call makeRpcFunc: assert builds-proxy-from-this-field: calls(makeRpcFunc) == calls(Set) [C04,C01]
+//@   at call (reflect.Value).Set: assert every-field-gets-its-own-proxy: $1 == lastProxy && calls(makeRpcFunc) == calls(Set) + 1 [C04,C01]
+//@   loop 2 invariant one-proxy-per-field: calls(makeRpcFunc) == calls(Set) [C04,C01]
+
+//@ func httpClient$1
+//@   at call (net/http.Header).Set: assert request-not-marked-idempotent: $1 != "Idempotency-Key" && $1 != "X-Idempotency-Key" [C04]
+//@   at call net/http.NewRequest: assert sent-as-post: $0 == "POST" [C04]
+//@   ensures one-http-exchange: calls(Do) <= 1 [C04]
+//@   ensures answer-carries-request-id: result1 == nil && cr.req.ID != nil ==> result0.ID == cr.req.ID [C02]
+
+//@ func NewCustomClient$1
+//@   ensures answer-carries-request-id: result1 == nil && cr.req.ID != nil ==> result0.ID == cr.req.ID [C02]
+//@   ensures one-exchange: calls(doRequest) <= 1 [C04]
